@@ -14,6 +14,7 @@ Lemma fact_delivers : poll_data_delivers_stop = true. Proof. reflexivity. Qed.
 Lemma fact_defers : stop_sending_defers = true. Proof. reflexivity. Qed.
 Lemma fact_saturates : reset_saturates = true. Proof. reflexivity. Qed.
 Lemma fact_poll_send_guard : poll_send_guard = true. Proof. reflexivity. Qed.
+Lemma fact_finish_drains : poll_finish_drains = true. Proof. reflexivity. Qed.
 Lemma fact_sites : forall site, In site [site_conn_close; site_conn_opener; site_conn_poll_accept_bidi; site_conn_poll_accept_recv;
     site_conn_poll_open_bidi; site_conn_poll_open_send; site_opener_clone; site_opener_close;
     site_opener_poll_open_bidi; site_opener_poll_open_send] -> assoc site site_converts = Some true.
@@ -244,6 +245,41 @@ Proof.
     repeat split; auto. intros k E. exfalso. exact (Hne k E). exists [WFail e]. reflexivity.
 Qed.
 
+(* poll_finish: a pending write is drained first; finish() itself touches neither the log nor `writing` *)
+Lemma q_finish_exact s r s' :
+  q_finish s = (r, s') ->
+  qs_log (s_q s') = qs_log (s_q s) /\ s_writing s' = s_writing s /\ qs_id (s_q s') = qs_id (s_q s) /\ poll_not_panic r /\
+  (r = Ready (Ok tt) -> qs_finished (s_q s') = true).
+Proof.
+  unfold q_finish. destruct (qs_finished (s_q s) || match qs_reset (s_q s) with Some _ => true | None => false end);
+    intros H; inversion H; subst; cbn; repeat split; auto; discriminate.
+Qed.
+
+Lemma poll_finish_exact o s r s' o' :
+  poll_finish o s = (r, s', o') ->
+  qs_log (s_q s') ++ view_opt (s_writing s') = qs_log (s_q s) ++ view_opt (s_writing s) /\
+  qs_id (s_q s') = qs_id (s_q s) /\
+  poll_not_panic r /\
+  (r = Ready (Ok tt) -> s_writing s' = None /\ qs_finished (s_q s') = true) /\
+  (exists used, o = used ++ o').
+Proof.
+  unfold poll_finish, poll_finish_with. rewrite fact_finish_drains.
+  destruct (s_writing s) as [d|] eqn:Hw.
+  - destruct (poll_ready o s) as [[r1 s1] o1] eqn:HP.
+    destruct (poll_ready_exact _ _ _ _ _ HP) as (E1 & E2 & _ & _ & E5 & E6 & E7).
+    destruct r1 as [[[]|e|p]|].
+    + destruct (q_finish s1) as [r2 s2] eqn:HF. intros H. inversion H; subst.
+      destruct (q_finish_exact _ _ _ HF) as (F1 & F2 & F3 & F4 & F5).
+      rewrite F1, F2, F3. split; [rewrite E1, Hw; reflexivity|]. split; [exact E2|]. split; [exact F4|]. split; [|exact E7].
+      intros Hr. split; [apply E6; reflexivity|apply F5; exact Hr].
+    + intros H. inversion H; subst. rewrite Hw in E1. repeat split; auto; discriminate.
+    + intros H. inversion H; subst. rewrite Hw in E1. repeat split; auto; discriminate.
+    + intros H. inversion H; subst. rewrite Hw in E1. repeat split; auto; discriminate.
+  - destruct (q_finish s) as [r2 s2] eqn:HF. intros H. inversion H; subst.
+    destruct (q_finish_exact _ _ _ HF) as (F1 & F2 & F3 & F4 & F5).
+    rewrite F1, F2, F3, Hw. repeat split; auto. exists []. reflexivity.
+Qed.
+
 (* T1c: an overlapping send_data is refused and touches nothing *)
 Lemma send_data_refused b d s :
   s_writing s = Some d -> send_data b s = (Err spec_refusal, s).
@@ -311,9 +347,9 @@ Proof.
   - destruct (poll_ready o s) as [[r0 s0] o0] eqn:HP. inversion H; subst.
     destruct (poll_ready_exact _ _ _ _ _ HP) as (E1 & E2 & _ & _ & E5 & _ & E7).
     cbn [abs_send spec_handed]. rewrite app_nil_r. repeat split; auto.
-  - unfold poll_finish in H.
-    destruct (qs_finished (s_q s) || match qs_reset (s_q s) with Some _ => true | None => false end);
-      inversion H; subst; cbn; rewrite app_nil_r; repeat split; auto; exists []; reflexivity.
+  - destruct (poll_finish o s) as [[r0 s0] o0] eqn:HP. inversion H; subst.
+    destruct (poll_finish_exact _ _ _ _ _ HP) as (E1 & E2 & E3 & _ & E5).
+    cbn [abs_send spec_handed]. rewrite app_nil_r. repeat split; auto.
   - unfold send_reset, reset_code in H. rewrite fact_saturates in H.
     destruct (c <=? varint_max); inversion H; subst; cbn; rewrite app_nil_r; repeat split; auto; exists []; reflexivity.
   - inversion H; subst. cbn [abs_send spec_handed]. rewrite app_nil_r. repeat split; auto.
@@ -814,29 +850,44 @@ Proof.
     destruct (N.ltb_spec varint_max code); try lia; reflexivity.
 Qed.
 
-(* ---- poll_finish does not look at `writing` ---- *)
+(* ---- finish ---- *)
 
-(* whenever nothing is waiting, Quinn has been handed everything that was accepted *)
-Lemma nothing_pending_all_handed :
-  forall ops id o tr s' o',
-    send_run ops (send_new (qsend_new id)) o = (tr, s', o') -> s_writing s' = None ->
-    qs_log (s_q s') = spec_handed (map abs_send tr).
+(* For every program - including writes that were abandoned while pending - and every oracle: when a
+   poll_finish answers Ready(Ok) (the stream is now finished), nothing is left in `writing` and Quinn has been
+   handed every buffer send_data accepted, completely and in order, BEFORE the finish *)
+Lemma finish_hands_over_everything ops id o tr s' o' :
+  send_run (ops ++ [OPollFinish]) (send_new (qsend_new id)) o = (tr, s', o') ->
+  (exists tr0, tr = tr0 ++ [(OPollFinish, SRPoll (Ready (Ok tt)))]) ->
+  s_writing s' = None /\ qs_finished (s_q s') = true /\
+  qs_log (s_q s') = spec_handed (map abs_send tr).
 Proof.
-  intros ops id o tr s' o' H Hw. destruct (send_run_exact _ _ _ _ _ _ H) as (E1 & _).
+  intros H (tr0 & Htr).
+  assert (Hsplit : forall ops1 ops2 s o,
+    send_run (ops1 ++ ops2) s o =
+      let '(t1, s1, o1) := send_run ops1 s o in let '(t2, s2, o2) := send_run ops2 s1 o1 in (t1 ++ t2, s2, o2)).
+  { clear. induction ops1 as [|op ops1 IH]; intros ops2 s o.
+    - cbn. destruct (send_run ops2 s o) as [[t2 s2] o2]. reflexivity.
+    - cbn [app send_run]. destruct (send_step op s o) as [[r s1] o1]. rewrite IH.
+      destruct (send_run ops1 s1 o1) as [[t1 s2] o2]. destruct (send_run ops2 s2 o2) as [[t2 s3] o3]. reflexivity. }
+  pose proof (send_run_exact _ _ _ _ _ _ H) as (E1 & _ & _ & _).
+  rewrite Hsplit in H. destruct (send_run ops (send_new (qsend_new id)) o) as [[t1 s1] o1] eqn:H1.
+  cbn [send_run send_step] in H. destruct (poll_finish o1 s1) as [[r2 s2] o2] eqn:HP.
+  injection H as Htr' Hs' Ho'. subst s2 o2.
+  rewrite Htr in Htr'. apply app_inj_tail in Htr'. destruct Htr' as [_ Heq]. injection Heq as Hr. subst r2.
+  destruct (poll_finish_exact _ _ _ _ _ HP) as (_ & _ & _ & E4 & _).
+  destruct (E4 eq_refl) as (Hw & Hf). split; [exact Hw|]. split; [exact Hf|].
   rewrite Hw in E1. cbn [view_opt send_new s_q s_writing qsend_new qs_log app] in E1. rewrite app_nil_r in E1. exact E1.
 Qed.
 
-(* REFUTED clause: "a successful finish means every accepted buffer was handed over".  poll_finish calls
-   Quinn's finish() whatever `writing` holds: after a write that was left pending (the caller stopped
-   polling poll_ready, i.e. dropped h3's send future) it returns Ok, the stream is finished, and the rest
-   of the accepted buffer never reaches Quinn. *)
-Lemma finish_while_writing_truncates :
-  let ops := [OSendData [[0; 4]; [1; 2; 3; 4]]; OPollReady; OPollFinish] in
-  let o := [WAccept 2; WAccept 1; WBlocked] in
+(* the scenario that used to truncate (repaired defect F21): a write left pending, then finish: the rest of the
+   buffer is written out first, with whatever split Quinn chooses *)
+Lemma finish_after_abandoned_write :
+  let ops := [OSendData [[0; 4]; [1; 2; 3; 4]]; OPollReady; OPollFinish; OPollFinish] in
+  let o := [WAccept 2; WAccept 1; WBlocked; WAccept 2; WBlocked; WAccept 100] in
   exists tr s' o', send_run ops (send_new (qsend_new 0)) o = (tr, s', o') /\
-    map snd tr = [SRUnit (Ok tt); SRPoll Pending; SRPoll (Ready (Ok tt))] /\
-    qs_finished (s_q s') = true /\
-    qs_log (s_q s') = [0; 4; 1] /\ spec_handed (map abs_send tr) = [0; 4; 1; 2; 3; 4].
+    map snd tr = [SRUnit (Ok tt); SRPoll Pending; SRPoll Pending; SRPoll (Ready (Ok tt))] /\
+    qs_finished (s_q s') = true /\ s_writing s' = None /\
+    qs_log (s_q s') = [0; 4; 1; 2; 3; 4].
 Proof. do 3 eexists. split; [vm_compute; reflexivity|]. repeat split; vm_compute; reflexivity. Qed.
 
 Lemma reset_code_spec c : reset_code c = Ok (spec_reset_code c).
